@@ -16,12 +16,20 @@ func All[T any](s []T, f func(T) bool) bool {
 //
 // Returns an empty slice if len(s)==0. Panics if chunkSize <= 0.
 func Chunk[T any](s []T, chunkSize int) [][]T {
-	out := make([][]T, (len(s)+chunkSize-1)/chunkSize)
+	if chunkSize <= 0 {
+		panic("xslices: chunkSize must be positive")
+	}
+	// Written so that nothing overflows for a chunkSize near the top of the int range.
+	n := len(s) / chunkSize
+	if len(s)%chunkSize != 0 {
+		n++
+	}
+	out := make([][]T, n)
 	for i := range out {
 		start := i * chunkSize
-		end := (i + 1) * chunkSize
-		if end > len(s) {
-			end = len(s)
+		end := len(s)
+		if chunkSize < len(s)-start {
+			end = start + chunkSize
 		}
 		out[i] = s[start:end]
 	}
